@@ -390,7 +390,7 @@ func recordCase(c *mcx.Ctx, f []*ref.Node, opt ref.WalkOpt, prepared ...bool) (o
 	if len(prepared) == 0 || !prepared[0] {
 		b = setup(c, f)
 	}
-	os.Chdir(b)
+	os.Chdir(filepath.Join(b, opt.Cwd))
 	defer os.Chdir("/")
 	got, err := intoto.RecordArtifacts(opt.Paths, opt.Algs, opt.Exclude, opt.Strip, opt.Normalise, opt.Follow)
 	c.Impl(1)
@@ -527,7 +527,23 @@ func historyCase(c *mcx.Ctx, f []*ref.Node, ch, api string, dsse bool, sw ...boo
 
 var tri = []string{"absent", "1", "2"}
 
-func matchCase(c *mcx.Ctx, link, local []string) (obs, sig string) {
+// disjoint algorithm sets only: objects that agree on a common algorithm but carry different sets are left open
+var algPairs = [][2][]string{{{"sha512"}, {"sha256"}}, {{"sha384", "sha512"}, {"sha256"}}, {{"sha256"}, {"sha512"}}}
+
+// matchCase: algs[0] = hash algorithms the link was recorded with, algs[1] = those of the local recording
+// (default sha256 both). A name in both whose hash objects are not the same object - another digest, or other
+// algorithms - is reported as differing.
+func matchCase(c *mcx.Ctx, link, local []string, algs ...[]string) (obs, sig string) {
+	linkAlgs, localAlgs := []string{"sha256"}, []string{"sha256"}
+	if len(algs) == 2 {
+		linkAlgs, localAlgs = algs[0], algs[1]
+	}
+	sameAlgs := strings.Join(linkAlgs, ",") == strings.Join(localAlgs, ",")
+	defer func() {
+		if sig != "" && !sameAlgs {
+			sig += "|link-recorded-with-" + strings.Join(linkAlgs, "+") + "|local-" + strings.Join(localAlgs, "+")
+		}
+	}()
 	b := filepath.Join(c.Work, "mp")
 	os.RemoveAll(b)
 	os.MkdirAll(b, 0o755)
@@ -541,20 +557,23 @@ func matchCase(c *mcx.Ctx, link, local []string) (obs, sig string) {
 			os.WriteFile(name, []byte(local[i]+"\n"), 0o644)
 		}
 		if link[i] != "absent" {
-			d, _ := ref.Walk(&ref.Node{Kind: 'd', Children: []*ref.Node{{Name: "x", Kind: 'f', Content: []byte(link[i] + "\n")}}}, ref.WalkOpt{Algs: []string{"sha256"}, Paths: []string{"x"}})
-			prods[name] = intoto.HashObj{"sha256": d["x"]["sha256"]}
+			d, _ := ref.Walk(&ref.Node{Kind: 'd', Children: []*ref.Node{{Name: "x", Kind: 'f', Content: []byte(link[i] + "\n")}}}, ref.WalkOpt{Algs: linkAlgs, Paths: []string{"x"}})
+			prods[name] = intoto.HashObj{}
+			for _, a := range linkAlgs {
+				prods[name][a] = d["x"][a]
+			}
 		}
 		switch {
 		case link[i] != "absent" && local[i] == "absent":
 			wantOnly = append(wantOnly, name)
 		case link[i] == "absent" && local[i] != "absent":
 			wantNot = append(wantNot, name)
-		case link[i] != "absent" && link[i] != local[i]:
+		case link[i] != "absent" && (link[i] != local[i] || !sameAlgs):
 			wantDiff = append(wantDiff, name)
 		}
 	}
 	l := intoto.Link{Type: "link", Name: "s", Products: prods}
-	only, not, diff, err := intoto.InTotoMatchProducts(&l, []string{"."}, []string{"sha256"}, nil, nil)
+	only, not, diff, err := intoto.InTotoMatchProducts(&l, []string{"."}, localAlgs, nil, nil)
 	c.Impl(1)
 	if err != nil {
 		return "error: " + err.Error(), "C13|match-products|error"
@@ -658,6 +677,12 @@ func run(c *mcx.Ctx) {
 				o.Paths = p
 				opts = append(opts, o)
 			}
+			// recorded from inside the directory, by the short names of its entries (a name may recur in the path below it)
+			for _, p := range [][]string{{"a", "b"}, {"b", "a"}, {"a", "b", "c"}, {"."}} {
+				o := defOpt(true, false)
+				o.Paths, o.Cwd = p, "root"
+				opts = append(opts, o)
+			}
 			hasLink := features(f) != "no-links"
 			setup(c, f)
 			for _, o := range opts {
@@ -758,6 +783,14 @@ func run(c *mcx.Ctx) {
 					c.Step(1, 1)
 					c.Outcome("match-products")
 					emitViolation(Case{Part: "match-products", Link: []string{l0, l1}, Local: []string{f0, f1}}, obs, sig)
+					// the link recorded with other algorithms than the local recording uses
+					for _, ap := range algPairs {
+						obs, sig := matchCase(c, []string{l0, l1}, []string{f0, f1}, ap[0], ap[1])
+						c.Case(true)
+						c.Step(1, 1)
+						c.Outcome("match-products-other-algorithms")
+						emitViolation(Case{Part: "match-products", Link: []string{l0, l1}, Local: []string{f0, f1}, Opt: ref.WalkOpt{Algs: ap[0], Strip: ap[1]}}, obs, sig)
+					}
 				}
 			}
 		}
@@ -781,6 +814,9 @@ func replay(c *mcx.Ctx, raw json.RawMessage) (string, string) {
 	case "history-switches":
 		return historyCase(c, parse(cs.Tree), cs.Change, cs.API, cs.DSSE, cs.Opt.Follow, cs.Opt.Normalise)
 	case "match-products":
+		if len(cs.Opt.Algs) > 0 {
+			return matchCase(c, cs.Link, cs.Local, cs.Opt.Algs, cs.Opt.Strip) // the two algorithm lists travel in the option fields
+		}
 		return matchCase(c, cs.Link, cs.Local)
 	}
 	return "unknown part", ""
@@ -790,7 +826,7 @@ func init() {
 	mcx.Register(&mcx.Driver{
 		ID: "C13", Run: run, Replay: replay,
 		Rule: "(a) every directory tree with <= 4 (thorough 5) nodes below the recorded root: names {a,b,c}, depth <= 3, regular files with 4 contents (LF, CR/LF/CRLF mix, empty, 256 distinct bytes), directories, symbolic links whose target is every other node, '..', the link itself, a missing name or a file outside the recorded path (file links, directory links, chains, cycles, dangling links arise by construction), each materialised on disk and recorded under {follow directory links} x {normalise line endings}; " +
-			"(a') on all trees <= 3 nodes one deviation at a time of: 5 algorithm lists (two, sha384, none, unknown, three), 2 exclude patterns, 7 strip-prefix lists (incl. a second prefix that matches the remainder) x follow; a 100 KiB CR/LF file under normalise x follow, 4 path lists (two paths, duplicate, missing, reversed); (b) InTotoRun and InTotoRecordStart/Stop (also with the wrong key) x 6 changes between the snapshots (incl. a same-size rewrite that keeps the modification time) x trees <= 2 nodes x wrappers, and on a tree with CR/LF content and a directory behind a link under all four combinations of {follow, normalise} x {run, record} x 3 changes x wrappers; (c) InTotoMatchProducts for the 81 combinations of two link products and two local files in {absent, 1, 2}. " +
+			"(a') on all trees <= 3 nodes one deviation at a time of: 5 algorithm lists (two, sha384, none, unknown, three), 2 exclude patterns, 7 strip-prefix lists (incl. a second prefix that matches the remainder) x follow; a 100 KiB CR/LF file under normalise x follow, 4 path lists (two paths, duplicate, missing, reversed) and 4 lists of short names recorded from inside the directory; (b) InTotoRun and InTotoRecordStart/Stop (also with the wrong key) x 6 changes between the snapshots (incl. a same-size rewrite that keeps the modification time) x trees <= 2 nodes x wrappers, and on a tree with CR/LF content and a directory behind a link under all four combinations of {follow, normalise} x {run, record} x 3 changes x wrappers; (c) InTotoMatchProducts for the 81 combinations of two link products and two local files in {absent, 1, 2}, with equal algorithm lists and with 3 pairs of disjoint ones (nothing the two recordings have in common can make a product count as unchanged). " +
 			"Oracle: ref.Walk on the description (never touches the disk). states = trees, transitions = recordings. non-trivial = non-empty tree.",
 		Assumptions: []string{"an exclude pattern on a tree with symbolic links is judged only where holding it against the name path and against the real location give the same result (which of the two counts is not fixed by the statement); so is a plain-name pattern that names a directory (whether the directory's contents are recorded)", "error text is not compared, only error versus artifacts"},
 		BudgetQuick: 200e9,
